@@ -99,8 +99,10 @@ def run_cond(shard, ctx):
     kind, Rc, Rx, Dx, Dy = (shard[k] for k in ("kind", "Rc", "Rx", "Dx", "Dy"))
     R = Rc * Rx
     vis = _affine.value_indices(tier) + (["M0"] if kind in ("full", "diag", "nncontrol") else [])
-    for vi in vis:
-        if not ctx.case(dict(vi=vi)):
+    for vi, ctor in [(v, c) for v in vis for c in _affine.ctors_for(kind)]:
+        if ctor != "Sigma" and vi != 0:
+            continue
+        if not ctx.case(dict(vi=vi, ctor=ctor)):
             continue
         zero = vi == "M0"
         v = 1 if zero else vi
@@ -113,9 +115,9 @@ def run_cond(shard, ctx):
         Sy = objs.spd_batch(Dy, Rc, v, seed, tag + ("Sy",), diag=diag)
         Sx = objs.spd_batch(Dx, Rx, v + 1, seed, tag + ("Sx",))
         mx = objs.vec_batch(Dx, Rx, v, seed, tag + ("mx",))
-        cond, kw, (M, b, Sy) = objs.mk_cond(kind, M, b, Sy)
+        cond, kw, (M, b, Sy) = objs.mk_cond(kind, M, b, Sy, ctor=ctor)
         p_x = objs.mk_pdf("GaussianPDF", Sx, mx)
-        facts = dict(M_is_zero=zero)
+        facts = dict(M_is_zero=zero, ctor=ctor)
         Hc = np.zeros(R)
         I = np.zeros(R)
         for rc in range(Rc):
